@@ -1112,6 +1112,7 @@ func genC15(c *Ctx) {
 	trieFullFanout(c)
 	trieSparse(c)
 	trieRound7(c)
+	trieRound11(c)
 	trieExtras(c)
 	// exhaustive histories over {a,b}, strings <= 2 (thorough 3), depth <= 3 (thorough 4)
 	var strs []string
@@ -1180,6 +1181,7 @@ func genC15(c *Ctx) {
 		}
 		ops = append(ops, "e", "j")
 		runTrieHistory(c, ops, probes, "random")
+		runTrieHistoryQuiet(c, ops, probes, "random")
 	}
 }
 
@@ -2113,6 +2115,7 @@ func splitSpace(b []byte) [][]byte {
 
 func genC20(c *Ctx) {
 	ncbiNumerals(c)
+	ncbiHugeLines(c)
 	matrixExtras(c)
 	// ReadNCBI on rendered tables
 	for i := 0; i < c.n(300); i++ {
